@@ -36,7 +36,8 @@ for mode in ("enforce", "shadow", "off"):
     # everything, two processes, two kinds (thorough)
     mc("%sAll2" % M, consts("{1, 2}", K2, "MCCap", mode, True, 2))
     mc("%sLife3" % M, consts("{1, 2, 3}", K1, "MCCap1", mode, True, 2, 1, LIFE))
-    mc("%sDebit3x3" % M, consts("{1, 2, 3}", K2, "MCCap", mode, True, 3, 0, DEBIT))
+    mc("%sDebit3x3" % M, consts("{1, 2, 3}", K1 if mode == "enforce" else K2, "MCCap1" if mode == "enforce" else "MCCap",
+                                 mode, True, 3, 0, DEBIT))
 mc("EnforceDirect2", consts("{1, 2}", K2, "MCCap", "enforce", False, 2))
 mc("ShadowDirect2", consts("{1, 2}", K2, "MCCap", "shadow", False, 2))
 mc("NegGt", consts("{1, 2}", K1, "MCCap1", "enforce", True, 2, 0, DEBIT, gtbug=True))
